@@ -76,6 +76,14 @@ def strip_ptr(E, v):
             return v
 
 
+def huge_capacity_guard(E, n, what):
+    """pre-allocating from an attacker-controlled count: capacity overflow panics, and an allocation of 2^40 elements or more
+    aborts the process — both are reachable failures when the count is not bounded by the code"""
+    if isinstance(n, VInt):
+        if E.choose([n.t < (1 << 40), n.t >= (1 << 40)], what) == 1:
+            raise PathAbort("panic", "%s with a capacity of 2^40 or more (capacity overflow / allocation failure)" % what)
+
+
 def last_seg_(t):
     from engine import last_seg
     return last_seg(t)
@@ -142,7 +150,12 @@ def dispatch(E, c, tc, args):
     if re.match(r"^std::vec::Vec::<.*>::new$", c, re.S):
         return VSeq([], "vec")
     if re.match(r"^std::vec::Vec::<.*>::with_capacity$", c, re.S):
+        huge_capacity_guard(E, args[0], "Vec::with_capacity")
         return VSeq([], "vec")
+    mw = re.search(r"(?:^|::)(BTreeMap|HashMap|LinkedHashMap|HashSet|LinkedHashSet|VecDeque)::<.*>::with_capacity$", c, re.S)
+    if mw and len(args) == 1 and mw.group(1) not in ("HashSet", "LinkedHashSet"):
+        huge_capacity_guard(E, args[0], mw.group(1) + "::with_capacity")
+        return VSeq([], "map" if "Map" in mw.group(1) else "vec")
     if re.match(r"^std::vec::Vec::<.*>::push$", c, re.S):
         r = ref_chain(E, args[0])
         d = E.read_ref(r)
